@@ -43,4 +43,5 @@ cfg("sim_c02_t", src="{s1, s2}", tgt="{t1, t2, t3}", late="{t3}", maxid=3, maxwm
 cfg("sim_c04", faults=1, srcfaults="FALSE", depth=8)
 cfg("sim_c04s", faults=1, srcfaults="TRUE", maxwm=0, depth=7)
 cfg("sim_c04h", faults=1, srcfaults="FALSE", maxwm=1, depth=8, hold="TRUE")   # sender held in the close window
+cfg("sim_c04a", src="{s1, s2}", tgt="{t1}", faults=1, srcfaults="TRUE", maxid=2, maxbatch=1, maxwm=0, chancap=4, ackcap=2, depth=16, holdack="TRUE")  # a receiver held in Send while a source stream breaks / reconnects
 cfg("sim_c04_t", src="{s1, s2}", faults=2, srcfaults="TRUE", maxid=3, maxwm=2, chancap=4, ackcap=2, depth=16)
